@@ -80,3 +80,14 @@ silent(P, "groups-copied-before-in-place-merge",
                      "            else:\n                commutation_map[op] = group\n")])
 silent(P, "unrelated-local-set-updated-from-a-group",
        [(IC, "    commutation_map = {}\n", "    commutation_map = {}\n    seen_names = set()\n    seen_names.update(PAULIX_GROUP)\n")])
+
+# --- R-C08-swap
+_IC = "pennylane/ops/functions/is_commuting.py"
+fire("C08", "non-simplified-rotations-swap-operands-but-not-their-target-wires",
+     (_IC, "    if operation1.name == \"CRot\":\n        if intersection(target_wires_1, operation2.wires):",
+           "    if operation2.name == \"CRot\":\n        operation1, operation2 = operation2, operation1\n\n    if operation1.name == \"CRot\":\n        if intersection(target_wires_1, operation2.wires):"),
+     "R-C08-swap", "check_commutation_two_non_simplified_rotations")
+silent("C08", "non-simplified-rotations-swap-operands-and-target-wires",
+       [(_IC, "    if operation1.name == \"CRot\":\n        if intersection(target_wires_1, operation2.wires):",
+              "    if operation2.name == \"CRot\":\n        operation1, operation2 = operation2, operation1\n        target_wires_1, target_wires_2 = target_wires_2, target_wires_1\n        op1_control_wires, op2_control_wires = op2_control_wires, op1_control_wires\n\n"
+              "    if operation1.name == \"CRot\":\n        if intersection(target_wires_1, operation2.wires):")])
